@@ -186,7 +186,7 @@ mod v_iface_slaac {
         }
     }
 
-    // @harness props=C13 cfg=KI6 tier=q to=600 mem=6 unwind=4 opts=nomem covers=2 kind=finding funcs=Slaac::poll_at;Slaac::rs_required;Slaac::sync_required bounds=every_INV_state:_phase_Start/Discovering/Maintaining,_0..=3_solicitations_left,_0..=1_prefixes_(crate_default_capacity),_0..=2_routes,_lifetimes_any_value_up_to_2^32_s;_poll_instant_<2^50_us;_probe_instant_anywhere_from_the_poll_instant_on
+    // @harness props=C13 cfg=KI6 tier=q to=600 mem=6 unwind=4 opts=nomem covers=2 funcs=Slaac::poll_at;Slaac::rs_required;Slaac::sync_required bounds=every_INV_state:_phase_Start/Discovering/Maintaining,_0..=3_solicitations_left,_0..=1_prefixes_(crate_default_capacity),_0..=2_routes,_lifetimes_any_value_up_to_2^32_s;_poll_instant_<2^50_us;_probe_instant_anywhere_from_the_poll_instant_on
     #[kani::proof]
     pub(crate) fn slaac_poll_vs_rs() {
         shapes!(poll_vs_rs_body);
@@ -209,7 +209,7 @@ mod v_iface_slaac {
         assert!(!before(t0, d), "prop:c13_slaac_ra_update_scheduled_by_poll_at");
     }
 
-    // @harness props=C13 cfg=KI6 tier=q to=600 mem=6 unwind=4 opts=nomem covers=2 kind=finding funcs=Slaac::poll_at;Slaac::sync_required;Slaac::has_ra_update bounds=every_INV_state_with_the_sync_flag_set;_same_bounds_as_slaac_poll_vs_rs
+    // (retired: since the fix "apply SLAAC updates ... in the poll that received them" the pre-state - sync flag still set when poll_at is asked - no longer arises) harness-was: props=C13 cfg=KI6 tier=q to=600 mem=6 unwind=4 opts=nomem covers=2 funcs=Slaac::poll_at;Slaac::sync_required;Slaac::has_ra_update bounds=every_INV_state_with_the_sync_flag_set;_same_bounds_as_slaac_poll_vs_rs
     #[kani::proof]
     pub(crate) fn slaac_poll_after_ra() {
         shapes!(poll_after_ra_body);
@@ -320,7 +320,7 @@ mod v_iface_slaac {
 
     // The exhausted-solicitation state is reached by the interface's own call sequence: new(), then
     // MAX_RTR_SOLICITATIONS times { rs_required -> rs_sent } at increasing instants, no advertisement.
-    // @harness props=C13 cfg=KI6 tier=q to=300 mem=4 unwind=5 opts=nomem covers=2 kind=finding funcs=Slaac::new;Slaac::rs_required;Slaac::rs_sent;Slaac::poll_at;Slaac::sync_required bounds=history:_new()_then_3_solicitations_at_symbolic_instants_(each_at_or_after_its_deadline),_no_router_answers;_then_poll_at_probed_at_any_later_instant
+    // @harness props=C13 cfg=KI6 tier=q to=300 mem=4 unwind=5 opts=nomem covers=2 funcs=Slaac::new;Slaac::rs_required;Slaac::rs_sent;Slaac::poll_at;Slaac::sync_required bounds=history:_new()_then_3_solicitations_at_symbolic_instants_(each_at_or_after_its_deadline),_no_router_answers;_then_poll_at_probed_at_any_later_instant
     #[kani::proof]
     pub(crate) fn slaac_unanswered_history() {
         let mut s = Slaac::new();
